@@ -235,6 +235,45 @@ def r3(rr, repo):
         rr.ob('inside emit_start the id is drawn before the START event is built, unconditionally', n.lineno < first_emit and not [t for t, pol in q.guards_of(n, stop=estart)], lm, n, witness=U(n)[:60], key='runid-before-start')
     rr.ob('every run gets an id of its own: emit_start draws a fresh one (the emitter object outlives runs and is inherited by forked filter processes)', bool(in_start) and all(isinstance(n.value, ast.Call) for n in in_start), lm,
           in_start[0] if in_start else estart, witness=f'{len(in_start)} stores in emit_start', key='runid-per-run')
+    # ... and the id must differ between the filter processes forked from one parent: the emitter is created at import, before run_multi() / Runner fork; whatever it holds then - a private
+    # random.Random(), a pre-drawn id, a counter - is identical in every child. uuid4() / uuid1() / os.urandom / secrets read the kernel (or the clock and pid) at the moment of the call.
+    def id_source(fn, depth=0):
+        # -> ('ok' | 'bad' | 'unknown', witness) for the value a function returns
+        rets = [r.value for r in ast.walk(fn) if isinstance(r, ast.Return) and r.value is not None]
+        verdicts = []
+        for r in rets:
+            calls = [c for c in ast.walk(r) if isinstance(c, ast.Call)]
+            names = [U(c.func) for c in calls]
+            if any(nm.startswith('self._') or nm.startswith('self.rng') or 'Random' in nm or nm.startswith('random.') or 'getrandbits' in nm or 'randbytes' in nm for nm in names) or \
+                    any(isinstance(a, ast.Attribute) and isinstance(a.value, ast.Name) and a.value.id == 'self' and a.attr not in ('get_run_id',) for a in ast.walk(r) if not any(a is c.func for c in calls)):
+                verdicts.append(('bad', U(r)[:80]))
+            elif any(nm in ('uuid.uuid4', 'uuid4', 'uuid.uuid1', 'uuid1', 'os.urandom', 'secrets.token_hex', 'secrets.token_bytes', 'secrets.token_urlsafe') for nm in names):
+                verdicts.append(('ok', U(r)[:80]))
+            else:
+                verdicts.append(('unknown', U(r)[:80]))
+        if not verdicts:
+            return 'unknown', 'no return value'
+        for v in ('bad', 'unknown', 'ok'):
+            for vv, w in verdicts:
+                if vv == v:
+                    return vv, w
+    for n in in_start:
+        v = n.value
+        if isinstance(v, ast.Call) and U(v.func).startswith('self.'):
+            try:
+                _, getter = repo.find(f'{LIN}::OpenFilterLineage.{U(v.func)[5:]}')
+            except Unresolved:
+                getter = None
+            verdict, wit = id_source(getter) if getter is not None else ('unknown', U(v)[:80])
+        else:
+            fake = ast.parse('def f():\n    return 0').body[0]
+            fake.body[0].value = v
+            verdict, wit = id_source(fake)
+        if verdict == 'unknown':
+            rr.unresolved('where the run id comes from was not recognised (uuid4 / uuid1 / os.urandom / secrets are known to differ between forked processes)', lm, n, witness=wit, key='runid-fork-safe')
+        else:
+            rr.ob('the run id comes from a source that differs between processes forked from one parent (the emitter object, and any generator state it holds, is inherited by every forked filter)',
+                  verdict == 'ok', lm, n, witness=wit, key='runid-fork-safe')
     _, emit = repo.find(f'{LIN}::OpenFilterLineage._emit_event')
     runs = [c for c in q.name_calls(emit, 'Run')]
     ok = bool(runs) and all(q.kwarg(c, 'runId') is not None and U(q.kwarg(c, 'runId')) == 'self.run_id' for c in runs)
